@@ -48,7 +48,7 @@ def bounds(tier):
     return {
         "interval_lattice": lattice(tier), "abs_thresholds": ABS, "rel_thresholds": REL, "invalid_rel": BAD_REL,
         "geometry_pool": len(geom_pool()), "freq_abs_thresholds": FABS,
-        "clip_bounds": CLIPS, "minimum_overlap": MINOV, "geometry_realisations": REALS,
+        "clip_bounds": CLIPS + [FAR_CLIP], "far_clip_geometry_edges": FAR_EDGES, "interval_representations": REPS, "minimum_overlap": MINOV, "geometry_realisations": REALS,
     }
 
 
@@ -67,7 +67,10 @@ def model_overlap(a, b, mode, thr):
 
 def call(fn, *a, **kw):
     try:
-        return ("ok", fn(*a, **kw))
+        r = fn(*a, **kw)
+        if type(r).__module__ == "numpy" and type(r).__name__ in ("bool_", "bool"):
+            r = bool(r)  # a numpy boolean is as good an answer as a Python one
+        return ("ok", r)
     except Exception as e:  # noqa
         return ("reject" if is_rejection(e) else "crash", type(e).__name__)
 
@@ -170,6 +173,36 @@ def geom_pool():
 
 # ---------------------------------------------------------------- in_clip
 CLIPS = [(0, 0), (0, 2), (0, 4), (2, 2), (2, 4), (4, 4), (1, 3), (-1, 1)]  # the last one starts before its recording does
+# a clip two hours into a recording, with geometry edges 2^-20 s (1 us) around its edges: a tolerance that scales with the
+# magnitude of the times (1e-9 x 7200 s = 7 us) shows here and nowhere near the origin; all values are exact doubles
+FAR_CLIP = (7200, 7210)
+_E = 2.0 ** -20
+FAR_EDGES = [7200 - _E, 7200, 7200 + _E, 7200.5, 7200.5 + _E, 7205, 7209.5 - _E, 7209.5, 7210 - _E, 7210, 7210 + _E]
+
+# representations of an interval handed to intervals_overlap (same two numbers each time)
+REPS = ["tuple_float", "list_float", "ndarray_float64", "ndarray_int64", "tuple_int", "ndarray_float32", "numpy_scalars"]
+
+
+def represent(iv, rep):
+    """The interval in the given representation, or None when the representation cannot hold its two values exactly."""
+    import numpy as np
+    a, b = float(iv[0]), float(iv[1])
+    integral = a == int(a) and b == int(b)
+    if rep == "tuple_float":
+        return (a, b)
+    if rep == "list_float":
+        return [a, b]
+    if rep == "ndarray_float64":
+        return np.array([a, b], dtype=np.float64)
+    if rep == "numpy_scalars":
+        return (np.float64(a), np.float64(b))
+    if rep == "ndarray_int64":
+        return np.array([int(a), int(b)], dtype=np.int64) if integral else None
+    if rep == "tuple_int":
+        return (int(a), int(b)) if integral else None
+    if rep == "ndarray_float32":
+        return np.array([a, b], dtype=np.float32) if (float(np.float32(a)) == a and float(np.float32(b)) == b) else None
+    raise ValueError(rep)
 MINOV = [0, 0.5, 1, 3]
 REALS = ["TimeStamp", "Point", "MultiPoint", "TimeInterval", "BoundingBox", "LineString", "Polygon", "MultiLineString"]
 
@@ -209,6 +242,7 @@ def blocks(tier):
     lat2 = [0, 1, 2, 3, 4] if tier == "quick" else [0, 0.5, 1, 2, 3, 3.5, 4, 5]
     ivs2 = [(a, b) for i, a in enumerate(lat2) for b in lat2[i:]]
     cc = [(ci, iv) for ci in range(len(CLIPS)) for iv in ivs2]
+    cc += [(-1, (a, b)) for i, a in enumerate(FAR_EDGES) for b in FAR_EDGES[i:]]
     out += [{"space": "in_clip", "items": c} for c in chunk(cc, 16)]
     return out
 
@@ -220,6 +254,11 @@ def run_block(block, rec):
         ivs = [(a, b) for i, a in enumerate(lat) for b in lat[i:]]
         for i, j in block["pairs"]:
             rec.add(run_case({"space": "intervals", "a": list(ivs[i]), "b": list(ivs[j])}))
+            # the same pair once more in another representation of each interval (all 49 combinations occur over the pairs)
+            k = i * len(ivs) + j
+            ra, rb = REPS[k % len(REPS)], REPS[(k // len(REPS)) % len(REPS)]
+            if (ra, rb) != ("tuple_float", "tuple_float"):
+                rec.add(run_case({"space": "intervals", "a": list(ivs[i]), "b": list(ivs[j]), "rep": [ra, rb]}))
     elif sp == "geoms":
         pool = geom_pool()
         for i, j in block["pairs"]:
@@ -231,7 +270,7 @@ def run_block(block, rec):
                 c = realise_extent(kind, iv[0], iv[1])
                 if c is None:
                     continue
-                rec.add(run_case({"space": "in_clip", "clip": list(CLIPS[ci]), "kind": kind, "coords": c}))
+                rec.add(run_case({"space": "in_clip", "clip": list(FAR_CLIP if ci == -1 else CLIPS[ci]), "kind": kind, "coords": c}))
 
 
 def run_case(case):
@@ -239,7 +278,16 @@ def run_case(case):
     sp = case["space"]
     if sp == "intervals":
         a, b = tuple(float(x) for x in case["a"]), tuple(float(x) for x in case["b"])
-        check_pair(out, intervals_overlap, a, b, a, b, ABS, REL, "", {"fn": "intervals_overlap"})
+        xa, xb = a, b
+        cls = {"fn": "intervals_overlap"}
+        if case.get("rep"):
+            xa, xb = represent(a, case["rep"][0]), represent(b, case["rep"][1])
+            if xa is None or xb is None:
+                out.vac("equals_model")
+                out.klass = "representation_not_applicable"
+                return out
+            cls = {"fn": "intervals_overlap", "rep": "+".join(sorted(set(case["rep"])))}
+        check_pair(out, intervals_overlap, xa, xb, a, b, ABS, REL, "", cls)
     elif sp == "geoms":
         g, h = case["g"], case["h"]
         G, H = mkgeom(g["type"], g["coordinates"]), mkgeom(h["type"], h["coordinates"])
